@@ -181,7 +181,34 @@ def check_open_site(ctx, fi, site, rev, depth=3):
     return ok, trail
 
 
+def _list_file_opens(ctx):
+    """open()/xopen() calls of the phase command whose path is one of the auxiliary list files (a *_list* name), any mode"""
+    out = []
+    for q, fi in sorted(ctx.prog.functions.items()):
+        if not q.startswith(PH + "."):
+            continue
+        for c in walk_function(fi.node, include_nested=False):
+            if not isinstance(c, ast.Call):
+                continue
+            name = c.func.id if isinstance(c.func, ast.Name) else (c.func.attr if isinstance(c.func, ast.Attribute) else None)
+            if name not in ("open", "xopen") or not c.args or "list" not in u(c.args[0]):
+                continue
+            mode = c.args[1] if len(c.args) > 1 else None
+            for k in c.keywords:
+                if k.arg == "mode":
+                    mode = k.value
+            out.append((fi, c, mode))
+    return out
+
+
 def r1(ctx):
+    # a list file describes this run only: it is opened for (truncating) writing, never for appending or updating
+    lf = _list_file_opens(ctx)
+    for fi, c, mode in lf:
+        m = mode.value if isinstance(mode, ast.Constant) and isinstance(mode.value, str) else None
+        okm = None if m is None else m.startswith(("w", "x"))
+        ctx.ob(fi.qual, "list-file-starts-empty:%s" % u(c.args[0])[:40], okm, fi.loc(c), "%s is opened with mode %r: the list holds the entries of this run only" % (u(c.args[0]), m) if okm else ("%s is opened with mode %r: entries of earlier runs that named the same file stay in the list, which then reports changes that are not differences between this run's input and output" % (u(c.args[0]), m) if okm is False else "cannot read the mode %s is opened with" % u(c.args[0])))
+    ctx.require(len(lf) >= 2, "fewer than two list files are opened by the phase command (scan broken)")
     rev = reverse_calls(ctx)
     n = 0
     for fi in sorted(ctx.prog.functions.values(), key=lambda f: f.qual):
